@@ -147,7 +147,10 @@ fn run_case(c: &Case, acc: &mut Acc) {
 /// Words in which the reference is glued to literal text, including literal operator characters that are ordinary
 /// characters inside a word (`x&y$V`, `a=1&b=${V}`): differential oracle — the plan must be the plan obtained with a
 /// neutral payload, with the neutral text replaced by the payload (the structure does not depend on the value).
-pub const GLUES: [&str; 8] = ["p{}", "{}s", "x&y{}", "{}x&y", "u=1&v={}", "a.b:{}", "-o{}", "x%{}+y"];
+pub const GLUES: [&str; 9] = ["p{}", "{}s", "x&y{}", "{}x&y", "u=1&v={}", "a.b:{}", "-o{}", "x%{}+y", "{}"];
+/// the line around the word: plain, and next to a REAL input redirection or here-string (the produced word must not be
+/// taken for one more operator, nor swallow the real one), also as the operand of a here-string
+pub const SHAPES: [&str; 6] = ["vh-argv y {} z", "vh-argv y {}", "vh-argv y {} z < g", "vh-argv y {} z <<< w", "vh-argv y z <<< {}", "vh-argv {} z < g"];
 const NEUTRAL: &str = "QNEUTRALQ";
 
 #[derive(Clone)]
@@ -155,25 +158,26 @@ pub struct GlueCase {
     payload: usize,
     delivery: usize,
     glue: usize,
-    last: bool,
+    shape: usize,
 }
 
 impl GlueCase {
     fn line(&self) -> String {
         let c = match DELIVERY[self.delivery] {
             "${V}" => "${V}".to_string(),
-            "$(vh-emit K)" => "$(vh-emit V)".to_string(),
-            "`vh-emit K`" => "`vh-emit V`".to_string(),
+            // (one emit file per worker process)
+            "$(vh-emit K)" => format!("$(vh-emit V{})", std::process::id()),
+            "`vh-emit K`" => format!("`vh-emit V{}`", std::process::id()),
             _ => "$V".to_string(),
         };
         let w = GLUES[self.glue].replace("{}", &c);
-        if self.last { format!("vh-argv y {}", w) } else { format!("vh-argv y {} z", w) }
+        SHAPES[self.shape].replace("{}", &w)
     }
 }
 
 impl CaseRepr for GlueCase {
     fn repr(&self) -> Value {
-        json!({"line": self.line(), "payload": PAYLOADS[self.payload], "delivery": DELIVERY[self.delivery], "word": GLUES[self.glue]})
+        json!({"line": self.line(), "payload": PAYLOADS[self.payload], "delivery": DELIVERY[self.delivery], "word": GLUES[self.glue], "line_shape": SHAPES[self.shape]})
     }
 }
 
@@ -184,7 +188,7 @@ fn plan_with(c: &GlueCase, value: &str) -> Vec<Result<plan::PlanView, String>> {
         "$V-local" => sh.set_env("V", value),
         "$V" | "${V}" => std::env::set_var("V", value),
         _ => {
-            let _ = std::fs::write("emit.V", format!("{}\n", value));
+            let _ = std::fs::write(format!("emit.V{}", std::process::id()), format!("{}\n", value));
         }
     }
     plan::plan_line(&mut sh, &c.line())
@@ -219,10 +223,11 @@ fn run_glue_case(c: &GlueCase, acc: &mut Acc) {
     if ok {
         acc.nontrivial();
         acc.outcome("data:glued-word");
-        acc.state(&format!("{}|{}", c.line(), have));
+        acc.state(&format!("{}|{}", c.line().replace(&std::process::id().to_string(), ""), have));
     } else {
         acc.outcome("deviation:glued-word");
-        acc.violation(&format!("structure-depends-on-value:{}:{}:{}", DELIVERY[c.delivery], GLUES[c.glue], p), c.repr(), json!({"plan_with_neutral_value_then_substituted": want}), json!({"plan": have}));
+        let shape = if c.shape < 2 { String::new() } else { format!(":{}", SHAPES[c.shape].replace("vh-argv ", "").replace("{}", "W")) };
+        acc.violation(&format!("structure-depends-on-value:{}:{}{}:{}", DELIVERY[c.delivery], GLUES[c.glue], shape, p), c.repr(), json!({"plan_with_neutral_value_then_substituted": want}), json!({"plan": have}));
     }
 }
 
@@ -234,8 +239,12 @@ fn glue_cases() -> Box<dyn Iterator<Item = GlueCase>> {
                 continue;
             }
             for glue in 0..GLUES.len() {
-                for last in [false, true] {
-                    v.push(GlueCase { payload, delivery, glue, last });
+                for shape in 0..SHAPES.len() {
+                    // the whole-word form next to plain words is the main layer; real redirections: whole word and one glued form
+                    let wanted = if shape < 2 { GLUES[glue] != "{}" } else { GLUES[glue] == "{}" || GLUES[glue] == "p{}" };
+                    if wanted {
+                        v.push(GlueCase { payload, delivery, glue, shape });
+                    }
                 }
             }
         }
@@ -281,6 +290,7 @@ pub fn run(ctx: &Ctx) -> Value {
     std::env::set_var("VH_LOG", format!("{}/vh.log", cwd));
     std::env::set_var("HOME", &cwd);
     std::fs::write(format!("{}/emit.V", cwd), b"x\n").unwrap();
+    std::fs::write(format!("{}/g", cwd), b"from-g\n").unwrap();
     let before: std::collections::BTreeSet<String> = std::fs::read_dir(&cwd).unwrap().flatten().map(|e| e.file_name().to_string_lossy().to_string()).collect();
     let deadline = Instant::now() + Duration::from_secs(if ctx.thorough() { 600 } else { 40 });
     let opts = SweepOpts {
@@ -298,12 +308,12 @@ pub fn run(ctx: &Ctx) -> Value {
     let mut levels = vec![json!({"layer": "payloads x deliveries x quote x positions", "cases": r.cases, "complete": !r.capped, "wall_s": t.elapsed().as_secs_f64()})];
     total.merge(r);
     let t = Instant::now();
-    let r = explore::par_sweep(glue_cases, run_glue_case, &SweepOpts { workers: 1, label: "c13g".into(), ..opts_clone(&opts) });
-    levels.push(json!({"layer": "reference glued to literal text (8 word shapes, incl. literal & inside the word) x payloads x deliveries x {last, not last}; differential against a neutral value", "cases": r.cases, "complete": !r.capped, "wall_s": t.elapsed().as_secs_f64()}));
+    let r = explore::par_sweep(glue_cases, run_glue_case, &SweepOpts { workers: 4, label: "c13g".into(), ..opts_clone(&opts) });
+    levels.push(json!({"layer": "reference glued to literal text (8 word shapes, incl. literal & inside the word) x {last, not last}, and whole / glued words next to a real `< file`, `<<< word` and as here-string operand; x payloads x deliveries; differential against a neutral value", "cases": r.cases, "complete": !r.capped, "wall_s": t.elapsed().as_secs_f64()}));
     total.merge(r);
     // planning must not have created or touched any file in the directory
     let after: std::collections::BTreeSet<String> = std::fs::read_dir(&cwd).unwrap().flatten().map(|e| e.file_name().to_string_lossy().to_string()).collect();
-    let new_files: Vec<&String> = after.difference(&before).filter(|f| *f != "vh.log").collect();
+    let new_files: Vec<&String> = after.difference(&before).filter(|f| *f != "vh.log" && !f.starts_with("emit.V")).collect();
     let mut out = total.to_json();
     if !new_files.is_empty() {
         out["machinery_errors"] = json!([format!("planning created files: {:?}", new_files)]);
